@@ -64,4 +64,5 @@ InvVerdict == VerdictMatchesContract(Tree)
 InvErrorKind == ErrorNamesViolatedRule(Tree)
 InvSemantics == CompactPreservesSemantics(Tree)
 InvPrev == PrevLinksWellFounded(Tree)
+InvCount == InfosetCountMatches(Tree)
 ===============================================================================
